@@ -56,6 +56,15 @@ Proof.
     unfold resp_conn. rewrite D. cbn. destruct (bl =? 0); reflexivity.
 Qed.
 
+Lemma respond_trace c r k b p s : trace (respond c r k b p s) = trace (send_response c (Some r) (if hfail s =? 0 then 200 else hfail s) k b p s).
+Proof. reflexivity. Qed.
+
+Lemma respond_G c r k b p s : draining s = true -> G s (respond c r k b p s).
+Proof.
+  intro D. pose proof (send_response_G c (Some r) (if hfail s =? 0 then 200 else hfail s) k b p s D) as [D1 E1].
+  split; [exact D1|]. destruct E1 as [l [T Q]]. exists l. split; [rewrite respond_trace; exact T|exact Q].
+Qed.
+
 Lemma decode_loop_G c : forall fuel s upd, draining s = true -> is_none (dstate s) = false ->
   G s (fst (decode_loop fuel c s upd)) /\ is_none (dstate (fst (decode_loop fuel c s upd))) = false.
 Proof.
@@ -106,7 +115,7 @@ Qed.
 
 Lemma poll_response_G c : forall fuel s, draining s = true -> G s (poll_response fuel c s).
 Proof.
-  induction fuel as [|f IH]; intros s D; cbn [poll_response]; [apply G_same; [exact D|reflexivity]|].
+  induction fuel as [|f IH]; intros s D; cbn [poll_response]; rewrite ?body_if; [apply G_same; [exact D|reflexivity]|].
   destruct (dstate s) eqn:Ed.
   - rewrite D. apply G_same; repeat bm; cbn; auto.
   - destruct (poll_handler (rq_id r) s) as [s1 out] eqn:E.
@@ -114,8 +123,8 @@ Proof.
     assert (D1 : draining s1 = true) by (rewrite F; exact D).
     assert (G1 : G s s1) by (apply G_same; [exact D1|rewrite F; reflexivity]).
     destruct out as [[[k b] p]|].
-    + eapply G_trans; [exact G1|]. eapply G_trans; [apply send_response_G; exact D1|].
-      apply IH. apply send_response_G. exact D1.
+    + eapply G_trans; [exact G1|]. eapply G_trans; [apply respond_G; exact D1|].
+      apply IH. apply respond_G. exact D1.
     + destruct (poll_request c s1) as [s2 upd] eqn:E2.
       pose proof (poll_request_G c s1 D1) as G2. rewrite E2 in G2. cbn in G2.
       destruct upd; [|eapply G_trans; eauto].
